@@ -3,7 +3,7 @@ H: every hash() argument in the anchored files is built from ints, bools, None a
 so no PYTHONHASHSEED-dependent value reaches an ordering decision or a stored identifier; cached = uncached is C13's coherence (F);
 B (checks/b19.py): 35 observables across 5 interpreter processes with different hash seeds, cached/uncached, original/copy."""
 from vlib import env
-from checks.common import bounded_part, want, make_replay, t_oblig
+from checks.common import anchored, bounded_part, want, make_replay, t_oblig
 
 LEVEL = 'other'
 replay = make_replay('C19')
@@ -27,6 +27,7 @@ FINISH = dict(
 def main(run):
     env.setup()
     if want(run, 'H'):
+      with anchored(run, 'C19/H'):
         from frames import hashtypes as H
         n = 0
         for rel in FILES:
@@ -42,6 +43,10 @@ def main(run):
                     continue
                 bad = sorted(str(x) for x in lv - OK_LEAVES)
                 k = None
+                if bad and set(bad) <= {'unknown'}:
+                    # the structural typing cannot see what the argument is built from (new local, helper call ...): not decided by H, never a violation
+                    run.unanchored(f'C19/H:{rel}:{q}', f'hash({txt[:80]}) at line {ln}: argument type not inferable by the structural typing')
+                    continue
                 if bad:
                     k = run.violation(f'hash-input:{rel}:{q}', f'{rel}:{ln} {q}: hash({txt[:80]}) takes a value of type {bad} - seed dependent or untypable',
                                       witness={'site': f'{rel}:{ln}', 'argument': txt, 'leaf_types': sorted(map(str, lv))}, obligation=f'hash-site[{rel}:{q}]',
